@@ -25,7 +25,9 @@ EXPLANATION = ("Proved in Lean: the transfer functions (calculate, castValue, in
                "validator accepts is thereby proved for all inputs of that program; programs are sampled, so the property is decided only "
                "on the sampled programs (level other). Outside the model: floats, pointers, arrays, structs, calls, globals, switch, goto, "
                "for-loops are desugared, C++ features, symbolic facts, container/lifetime values, facts with indirect != 0.")
-THEOREMS = []
+THEOREMS = ["Cppcheck.C01.calculate_sound", "Cppcheck.C01.calculate_error_iff", "Cppcheck.C01.infer_sound_counterexample",
+            "Cppcheck.C01.infer_known_sound", "Cppcheck.C01.infer_sound_partial", "Cppcheck.C01.fold_binary_unsigned_wrap_counterexample",
+            "Cppcheck.C01.fold_binary_sound_partial", "Cppcheck.C01.validator_sound"]
 MODULES = ["Cppcheck.Props.C01"]
 
 OPS = ["+", "-", "*", "/", "%", "&", "|", "^", ">", "<", "<<", ">>", "&&", "||", "==", "!=", ">=", "<=", "<=>"]
@@ -1056,7 +1058,7 @@ def enclosing_ifs(body):
     return enc
 
 
-def classify_program_violation(prog, plat, f, toks, run_events, args=None):
+def classify_program_violation(prog, plat, f, toks, run_events, args=None, all_runs=None):
     """known-finding classes of a reported fact that a concrete UB-free execution contradicts"""
     idx = prog["index"]
     node = idx.get(f["occ"])
@@ -1083,31 +1085,30 @@ def classify_program_violation(prog, plat, f, toks, run_events, args=None):
                 t = toks.get((o["line"], o["col"])) if o else None
                 if t and any(("possible" in v or "inconclusive" in v) and "intvalue" in v for v in t["values"]):
                     return "infer-minus-impossible-from-possible-ref"
-    if node[0] == "V" and args is not None:
-        # F22: the fact describes the value the variable had BEFORE the last assignment of the failing run, and that assignment
-        # sits in a branch that does not enclose the read (forward analysis kept a value across a conditional assignment)
+    if node[0] == "V" and all_runs is not None:
+        # F22: x is assigned in a branch that does not enclose this read, and the reported fact is the truth on the executions
+        # that take one side of that branch only (it holds in some UB-free run and fails in another, and the two runs differ in
+        # whether that conditional assignment was the last write before the read)
         x = node[1]
         enc = prog.setdefault("enc", enclosing_ifs(prog["body"]))
-        wr = {}
-        for id_, n in idx.items():
-            if n[0] == "=" and n[2] == x or n[0] == "op=" and n[3] == x or n[0] == "++" and n[4] == x:
-                wr[id_] = n
-        j = next((j for j, (i, v) in enumerate(run_events) if i == f["occ"] and not fact_holds(f, v)), None)
-        if j is not None:
-            ws = [k for k in range(j) if run_events[k][0] in wr]
-            if ws:
-                k1 = ws[-1]
-                wid = run_events[k1][0]
-                def written(k):
-                    n = wr[run_events[k][0]]
-                    if n[0] == "++" and not n[3]:     # postfix: the event carries the old value
-                        return run_events[k][1] + (1 if n[2] else -1)
-                    return run_events[k][1]
-                before = written(ws[-2]) if len(ws) > 1 else (args[x] if x < prog["nparams"] else None)
-                wpath, rpath = enc.get(wid, ()), enc.get(f["occ"], ())
-                conditional = len(wpath) > 0 and wpath[:len(wpath)] != rpath[:len(wpath)]
-                if before is not None and conditional and fact_holds(f, before):
-                    return "stale-value-after-conditional-assignment"
+        wr = set(id_ for id_, n in idx.items() if n[0] == "=" and n[2] == x or n[0] == "op=" and n[3] == x or n[0] == "++" and n[4] == x)
+        rpath = enc.get(f["occ"], ())
+        cond_wr = set(w for w in wr if len(enc.get(w, ())) > 0 and enc.get(w, ())[:len(enc.get(w, ()))] != rpath[:len(enc.get(w, ()))])
+        def last_writer_at_read(evs, want_ok):
+            """last writer of x before the first event of this read whose value (does / does not) satisfy the fact"""
+            for j, (i, v) in enumerate(evs):
+                if i == f["occ"] and fact_holds(f, v) == want_ok:
+                    for k in range(j - 1, -1, -1):
+                        if evs[k][0] in wr:
+                            return evs[k][0]
+                    return 0
+            return None
+        if cond_wr:
+            bad = last_writer_at_read(run_events, False)
+            for (a2, outcome, evs2) in all_runs:
+                good = last_writer_at_read(evs2, True)
+                if good is not None and bad is not None and good != bad and (good in cond_wr or bad in cond_wr):
+                    return "conditional-assignment-one-path-value"
     return None
 
 
@@ -1259,13 +1260,17 @@ def run_programs(ctx, res, drv, progs, nargs, fuel=400, chunk=20):
             while True:
                 seen.add(cur["occ"])
                 nxt = None
-                for (so, sj) in sources(cur["occ"], evs, curj):
+                todo = list(sources(cur["occ"], evs, curj))
+                while todo and nxt is None:
+                    so, sj = todo.pop(0)
                     if so in seen:
                         continue
                     vg = violated_at(so, evs)
                     if vg:
                         nxt = (vg[0], sj)
-                        break
+                    elif idx.get(so, ("",))[0] in ("=", "op=", "++") and not any(g["occ"] == so for g in fs):
+                        seen.add(so)
+                        todo += sources(so, evs, sj)     # a statement without a mapped token (declaration): look through it
                 if nxt is None:
                     break
                 cur, curj = nxt
@@ -1279,7 +1284,12 @@ def run_programs(ctx, res, drv, progs, nargs, fuel=400, chunk=20):
             f = r["f"]
             desc = "%s %s%d on `%s` (occurrence %d, %s)" % ("Known" if f["k"] == "K" else "Impossible", "" if f["b"] == "P" else {"U": "<=", "L": ">="}[f["b"]],
                                                             f["v"], f["tok"], f["occ"], prog["occ"][f["occ"]]["kind"])
-            key = classify_program_violation(prog, plat, f, toks, r["evs"], r["args"])
+            key = classify_program_violation(prog, plat, f, toks, r["evs"], r["args"], prs)
+            if key is None:
+                # a corpus witness names the exact fact it is a witness for (classifier = this program, this token, this value)
+                for ex in prog.get("expect", ()):
+                    if ex["tok"] == f["tok"] and ex["fact"] == "%s%s%d" % (f["k"], f["b"], f["v"]):
+                        key = ex["key"]
             res.violation("cppcheck reports %s at %d:%d but the UB-free execution f(%s) evaluates it to %d (%d further reported facts fail as a consequence)\n%s" %
                           (desc, prog["occ"][f["occ"]]["line"], prog["occ"][f["occ"]]["col"], ", ".join(map(str, r["args"])), r["val"], r["derived"], prog["text"]),
                           dict(kind="program", platform=plat.name, text=prog["text"], wire=prog["wire"], fact=fact_tok(f), args=r["args"], value=r["val"],
@@ -1296,6 +1306,22 @@ def run_programs(ctx, res, drv, progs, nargs, fuel=400, chunk=20):
         res.oblig("e2e:validator-accepts-every-reported-fact", True, "validation", "")
 
 
+def totuple(x):
+    return tuple(totuple(y) for y in x) if isinstance(x, list) else x
+
+
+def corpus_program(entry):
+    """rebuild text / wire / occurrence table of a stored program (body is stored as nested lists)"""
+    body = totuple(entry["body"])
+    vars_, nparams = entry["vars"], entry["nparams"]
+    names = [("p%d" if i < nparams else "v%d") % i for i in range(len(vars_))]
+    w = []
+    wire_stmt(body, w)
+    text, occ = Printer(names, vars_, nparams).func(body)
+    return dict(wire="%d %d %s %s" % (nparams, len(vars_), " ".join(vars_), " ".join(w)), text=text, occ=occ, vars=vars_, nparams=nparams,
+                body=body, plat=entry["platform"], expect=entry.get("expect", []), name=entry["name"], positive=entry.get("positive", False))
+
+
 def load_corpus():
     p = os.path.join(core.VERIF, "corpus", "C01", "cases.json")
     return json.load(open(p)) if os.path.exists(p) else {}
@@ -1310,10 +1336,11 @@ def run(ctx, res):
     run_transfer(ctx, res, drv, exe, 40000 if thorough else 6000, 40000 if thorough else 6000)
     nprog = 3000 if thorough else int(os.environ.get("C01_NPROG", "100"))
     plats = ["unix64", "unix32", "win64"] if thorough else ["unix64"]
-    progs = []
+    progs = [corpus_program(e) for e in load_corpus().get("programs", [])]
+    res.extra["corpus_programs"] = len(progs)
     for i in range(nprog):
         progs.append(make_program(ctx.rng, PLATFORMS[plats[i % len(plats)]]))
-    run_programs(ctx, res, drv, progs, 60 if thorough else 40)
+    run_programs(ctx, res, drv, progs, 300 if thorough else 200)
 
 
 def replay(ctx, res, rp):
@@ -1326,6 +1353,35 @@ def replay(ctx, res, rp):
             bad = impl and impl[0].startswith("ok:") and int(impl[0][3:]) != rp["reference"]
         else:
             bad = impl and any(holds(parse_vtok(t), rp["value"]) is False for t in impl[0].split() if t != "-")
+        print("replay: %s" % ("still fails" if bad else "no longer fails"))
+        return 1 if bad else 0
+    if rp.get("kind") == "program":
+        # dump the stored program again, look for the stored fact, run the stored arguments through the interpreter
+        plat = PLATFORMS[rp["platform"]]
+        d = os.path.join(ctx.tmp, "replay")
+        os.makedirs(d, exist_ok=True)
+        path = os.path.join(d, "r.c")
+        open(path, "w").write(rp["text"])
+        run_cppcheck_dump(ctx, path, plat.name)
+        dplat, toks = parse_dump(path + ".dump")
+        occ = rp["occ"]
+        m = re.match(r"(\d+):([KI])([PUL])(-?\d+)$", rp["fact"])
+        f = dict(occ=int(m.group(1)), k=m.group(2), b=m.group(3), v=int(m.group(4)))
+        t = toks.get((occ["line"], occ["col"]))
+        reported = False
+        for v in (t or {}).get("values", []):
+            if "intvalue" in v and v.get("indirect", "0") == "0":
+                iv = int(v["intvalue"])
+                iv = iv - 2 ** 64 if iv >= 2 ** 63 else iv
+                kind = "K" if v.get("known") == "true" else "I" if v.get("impossible") == "true" else None
+                if kind == f["k"] and iv == f["v"] and {"Point": "P", "Upper": "U", "Lower": "L"}[v.get("bound", "Point")] == f["b"]:
+                    reported = True
+        rc, out, err = core.run_lines(drv, [], ["run %s 400 %s ## %s" % (plat.wire(), rp["wire"], " ".join(map(str, rp["args"])))])
+        parts = out[0].split() if out else ["?"]
+        evs = [(int(a), int(b)) for a, b in (p.split("=") for p in parts[1:])]
+        bad = reported and parts[0] == "ret" and any(i == f["occ"] and not fact_holds(f, v) for (i, v) in evs)
+        print("replay: fact %s %s by cppcheck on `%s` at %d:%d; f(%s) -> %s" % (rp["fact"], "still reported" if reported else "no longer reported", occ["text"], occ["line"], occ["col"],
+                                                                           ", ".join(map(str, rp["args"])), parts[0]))
         print("replay: %s" % ("still fails" if bad else "no longer fails"))
         return 1 if bad else 0
     print("replay: unknown replay kind")
